@@ -14,6 +14,7 @@
 EXTENDS Naturals, Sequences, FiniteSets, TLC
 
 CONSTANTS W,          \* tracker window (maxlen of the deque)
+          MinEp,      \* first endpoint packet ID: 1 (viewer, simulator) or 0 (hippolyzer's own client endpoint)
           MaxEp,      \* largest endpoint packet ID the environment uses
           MaxInj,     \* total injections explored
           Reorder,    \* endpoint may run this far ahead of its frontier
@@ -31,12 +32,16 @@ Max(S) == IF S = {} THEN 0 ELSE CHOOSE x \in S : \A y \in S : y <= x
 \* Injections that fell out of the window, and the newest of them.
 Evicted == allInj \ Range(inj)
 Horizon == Max(Evicted)
+\* Horizon 0 = nothing has aged out (injected IDs start at 1)
+Above(w) == Horizon = 0 \/ w > Horizon
+LowW == IF Horizon = 0 THEN MinEp ELSE Horizon + 1
 
 \* The k-th wire ID (k >= 1) that is not an injected one.
 RECURSIVE NthFree(_, _, _)
 NthFree(k, I, w) == IF w \in I THEN NthFree(k, I, w + 1)
                     ELSE IF k = 1 THEN w ELSE NthFree(k - 1, I, w + 1)
-Ideal(k) == NthFree(k, allInj, 1)
+\* wire ID 0 can only be the endpoint's own ID 0
+Ideal(k) == IF k = 0 THEN 0 ELSE NthFree(k, allInj, 1)
 \* The endpoint ID of non-injected wire ID w.
 IdealOrig(w) == w - Cardinality({i \in allInj : i < w})
 
@@ -66,9 +71,9 @@ Init == /\ base = 0 /\ inj = <<>> /\ injBase = 0
 
 \* Environment assumption (DESIGN 3.3): the endpoint's IDs stay within a window of its
 \* frontier, and never reach back behind an injection that has aged out.
-CanSend(k) == /\ k \in 1..MaxEp
+CanSend(k) == /\ k \in MinEp..MaxEp
               /\ k <= Frontier + 1 + Reorder
-              /\ Ideal(k) > Horizon
+              /\ Above(Ideal(k))
 
 \* prepare_message on a forwarded packet: get_effective_id + track_seen
 Send(k) ==
@@ -89,32 +94,32 @@ Inject ==
          /\ allInj' = allInj \cup {new}
     /\ UNCHANGED <<sent, fwd>>
 
-Next == Inject \/ \E k \in 1..MaxEp : Send(k)
+Next == Inject \/ \E k \in MinEp..MaxEp : Send(k)
 
 SpecT == Init /\ [][Next]_vars
 
 (*************************** Properties ************************************)
 FwdOf(k) == (CHOOSE p \in fwd : p[1] = k)[2]
-Live == {k \in sent : FwdOf(k) > Horizon}
+Live == {k \in sent : Above(FwdOf(k))}
 
 \* The code's forward walk computes the ideal translation for every ID the environment may send
-AlgoIsIdeal == \A k \in 1..MaxEp : Ideal(k) > Horizon => Eff(k) = Ideal(k)
+AlgoIsIdeal == \A k \in MinEp..MaxEp : Above(Ideal(k)) => Eff(k) = Ideal(k)
 \* ... and an ID translated again later gets the same wire ID
 Stable == \A k \in Live : Eff(k) = FwdOf(k)
 OrderPreserving == \A a, b \in sent : a < b => FwdOf(a) < FwdOf(b)
 AvoidsInjected == \A k \in sent : FwdOf(k) \notin allInj
 \* wire -> endpoint, for every non-injected wire ID newer than any aged-out injection
 Inverse == \A k \in Live : Orig(FwdOf(k)) = k
-InverseAll == \A w \in (Horizon + 1)..(base + 2) : w \notin allInj => Orig(w) = IdealOrig(w)
-InjectedKnown == \A w \in (Horizon + 1)..(base + 2) : WasInjected(w) <=> w \in allInj
+InverseAll == \A w \in LowW..(base + 2) : w \notin allInj => Orig(w) = IdealOrig(w)
+InjectedKnown == \A w \in LowW..(base + 2) : WasInjected(w) <=> w \in allInj
 \* an injected ID is above every wire ID in use when it is allocated
 InjectFresh == [][Inject => \A k \in sent : FwdOf(k) < base']_vars
 BaseIsHighest == base = Max(allInj \cup {FwdOf(k) : k \in sent})
 
 (*************************** Observation (binding) *************************)
 \* What a correct implementation must answer in the current state; Spec-layer only.
-ObsEff == {<<k, Ideal(k)>> : k \in {k \in 1..MaxEp : CanSend(k) \/ k \in Live}}
-ObsOrig == {<<w, IdealOrig(w)>> : w \in {w \in (Horizon + 1)..(base + 2) : w \notin allInj}}
-ObsInj == {<<w, w \in allInj>> : w \in (Horizon + 1)..(base + 2)}
+ObsEff == {<<k, Ideal(k)>> : k \in {k \in MinEp..MaxEp : CanSend(k) \/ k \in Live}}
+ObsOrig == {<<w, IdealOrig(w)>> : w \in {w \in LowW..(base + 2) : w \notin allInj}}
+ObsInj == {<<w, w \in allInj>> : w \in LowW..(base + 2)}
 Obs == [eff |-> ObsEff, orig |-> ObsOrig, inj |-> ObsInj, nextInj |-> base + 1]
 =============================================================================
